@@ -334,3 +334,93 @@ Proof.
   intros [H1 H2]. unfold g_uw_single_char_width.
   apply N.ltb_lt in H2. apply N.leb_le in H1. now rewrite H2, H1.
 Qed.
+
+(* ---- worked examples: the rules the crate documents (lib.rs, "Rules for determining width"), one per arm of the
+   look-ahead machine; the expected values are the documentation's (and the real crate's, correspondence kind uwidth).
+   A changed table entry or a changed arm of width_in_str / lookup_width that one of them exercises fails here. ---- *)
+Theorem g_uw_documented_examples :
+  (* CR LF is one column *)
+  g_uw_str_width [13; 10] = Some 1 /\
+  (* ASCII *)
+  g_uw_str_width [97; 98; 99] = Some 3 /\
+  (* East_Asian_Width=Wide *)
+  g_uw_str_width [20013] = Some 2 /\
+  (* Emoji_Presentation *)
+  g_uw_str_width [128512] = Some 2 /\
+  (* emoji ZWJ sequence: 2 *)
+  g_uw_str_width [128104; 8205; 128105; 8205; 128103; 8205; 128102] = Some 2 /\
+  (* emoji modifier sequence: 2 *)
+  g_uw_str_width [128077; 127995] = Some 2 /\
+  (* emoji presentation sequence (VS16): 2 *)
+  g_uw_str_width [10084; 65039] = Some 2 /\
+  (* VS15 on a text-default character *)
+  g_uw_str_width [10084; 65038] = Some 1 /\
+  (* U+231A alone *)
+  g_uw_str_width [8986] = Some 2 /\
+  (* text presentation sequence (VS15): 1 *)
+  g_uw_str_width [8986; 65038] = Some 1 /\
+  (* U+1F004 VS15 *)
+  g_uw_str_width [126980; 65038] = Some 1 /\
+  (* VS15 in Enclosed Ideographic Supplement: still 2 *)
+  g_uw_str_width [127514; 65038] = Some 2 /\
+  (* Arabic lam-alef ligature: 1 *)
+  g_uw_str_width [1604; 1575] = Some 1 /\
+  (* lam, transparent mark, alef: 1 *)
+  g_uw_str_width [1604; 1611; 1575] = Some 1 /\
+  (* lam alone *)
+  g_uw_str_width [1604] = Some 1 /\
+  (* Buginese <a, -i> ya: 1 *)
+  g_uw_str_width [6677; 6679; 8205; 6672] = Some 1 /\
+  (* Hebrew alef ZWJ lamed: 1 *)
+  g_uw_str_width [1488; 8205; 1500] = Some 1 /\
+  (* Khmer coeng sign: 0 *)
+  g_uw_str_width [6098; 6016] = Some 0 /\
+  (* letter + coeng sign *)
+  g_uw_str_width [6016; 6098; 6016] = Some 1 /\
+  (* Lisu tone letters: 1 *)
+  g_uw_str_width [42232; 42236] = Some 1 /\
+  (* Old Turkic ligature: 1 *)
+  g_uw_str_width [68658; 8205; 68611] = Some 1 /\
+  (* Tifinagh bi-consonant (joiner): 1 *)
+  g_uw_str_width [11569; 11647; 11569] = Some 1 /\
+  (* Tifinagh bi-consonant (ZWJ): 1 *)
+  g_uw_str_width [11569; 8205; 11569] = Some 1 /\
+  (* U+2D7F alone: 1 *)
+  g_uw_str_width [11647] = Some 1 /\
+  (* U+115F: 2 *)
+  g_uw_str_width [4447] = Some 2 /\
+  (* U+17A4: 2 *)
+  g_uw_str_width [6052] = Some 2 /\
+  (* U+17D8: 3 *)
+  g_uw_str_width [6104] = Some 3 /\
+  (* U+0CC0: 0 *)
+  g_uw_str_width [3264] = Some 0 /\
+  (* Hangul vowel jamo: 0 *)
+  g_uw_str_width [4448] = Some 0 /\
+  (* prepended concatenation mark U+0605: 0 *)
+  g_uw_str_width [1541] = Some 0 /\
+  (* U+A8FA: 0 *)
+  g_uw_str_width [43258] = Some 0 /\
+  (* a base letter and a Grapheme_Extend mark (width 0): 1 *)
+  g_uw_str_width [233] = Some 1 /\
+  (* Default_Ignorable U+00AD: 0 *)
+  g_uw_str_width [173] = Some 0 /\
+  (* U+200B: 0 *)
+  g_uw_str_width [8203] = Some 0 /\
+  (* regional indicator pair *)
+  g_uw_str_width [127482; 127480] = Some 2 /\
+  (* three regional indicators *)
+  g_uw_str_width [127482; 127480; 127462] = Some 3 /\
+  (* keycap sequence *)
+  g_uw_str_width [35; 65039; 8419] = Some 2 /\
+  (* tag sequence (flag of England) *)
+  g_uw_str_width [127988; 917607; 917602; 917605; 917614; 917607; 917631] = Some 2 /\
+  (* emoji ZWJ flags *)
+  g_uw_str_width [128512; 8205; 127482; 127480; 127482; 127480] = Some 4 /\
+  (* control characters count 1 each inside a string *)
+  g_uw_str_width [0; 7; 127; 159] = Some 4 /\
+  (* U+10FFFF *)
+  g_uw_str_width [1114111] = Some 1 /\
+  (* Ambiguous: narrow *)
+  g_uw_str_width [161; 9608] = Some 2.
+Proof. repeat split; vm_compute; reflexivity. Qed.
